@@ -55,7 +55,7 @@ Curated == {
   << Mod(A, <<Imp(R(Dir(A), A), FALSE)>>, "no"), Mod(C, <<Imp(R(Dir(C), E), FALSE)>>, "no"),
      Mod(B, <<Imp(R(Dir(B), C), FALSE), Imp(LibSpec(A), FALSE)>>, "no"), Mod(E, <<Imp(LibSpec(B), FALSE)>>, "begin") >> }
 
-Worlds == IF Family = "gen" THEN GenWorlds(NMods) ELSE Curated
+Worlds == IF Family = "gen" THEN GenWorlds(NMods) ELSE IF Family = "curated" THEN Curated ELSE GenWorlds(NMods) \cup Curated
 
 Sources == <<[file |-> TRUE, dir |-> <<"w">>], [file |-> FALSE, dir |-> <<"w", "sub">>], [file |-> TRUE, dir |-> <<"lib", "d">>],
              [file |-> FALSE, dir |-> <<"lib">>]>>
